@@ -242,6 +242,8 @@ def run(chk, prog):
     # "take cell y from cell y": the centre that updateSM adds and the one apply subtracts are decided under C01/R2, re-evaluated here
     from . import C01 as c01
     sub = type(chk)("C01", chk.tier)
+    from .. import main as _main
+    _main.check_anchors("C01", prog)
     c01.run(sub, prog)
     r = [i for i in sub.instances if i["rule"] == "R2" and "KickMap" in i["site"]]
     for i in r:
